@@ -12,6 +12,14 @@
 //   PCA <id> <N> <D> <d> <N*D doubles> <D*d doubles (projection matrix, row-major)>
 //        compute_mean; compute_covariance_matrix; project(P, mean)
 //        -> R <id> OK mean <D> 1 ... | cov <D> <D> ... | proj <N> <d> ...   (one line, '|' separated)
+//   LAP <id> <N> <k> <width> <N*N distance table> <N*k neighbour indices>
+//        compute_laplacian(begin, end, neighbors, table callback, width)
+//        -> R <id> OK L <N> <N> ... | D <N> 1 ...
+//   KLLEW <id> <N> <D> <k> <shift> <trace_shift> <N*D doubles> <N*k neighbour indices>
+//        linear_weight_matrix(begin, end, neighbors, eigen_kernel_callback, shift, trace_shift)
+//   KLTSAW <id> <N> <D> <k> <d> <shift> <N*D doubles> <N*k neighbour indices>
+//        tangent_weight_matrix(begin, end, neighbors, eigen_kernel_callback, d, shift)
+//        -> R <id> OK M <N> <N> ...        (the sparse matrix, printed densely)
 // Output (every line flushed):
 //   C <id>       marker printed BEFORE the work of a command (a crash / hang belongs to it)
 //   R <id> ...   result
@@ -34,6 +42,10 @@
 #include <tapkee/utils/matrix.hpp>
 #include <tapkee/routines/multidimensional_scaling.hpp>
 #include <tapkee/routines/pca.hpp>
+#include <tapkee/utils/naming.hpp>
+#include <tapkee/utils/sparse.hpp>
+#include <tapkee/routines/laplacian_eigenmaps.hpp>
+#include <tapkee/routines/locally_linear.hpp>
 #include <tapkee/utils/logging.hpp>
 
 using namespace tapkee;
@@ -215,6 +227,90 @@ int main()
             put_matrix(os, "cov", cov);
             os << " | ";
             put_matrix(os, "proj", proj);
+            puts(os.str().c_str());
+        }
+        else if (cmd == "LAP" || cmd == "KLLEW" || cmd == "KLTSAW")
+        {
+            int N = 0, D = 0, k = 0, d = 0;
+            double width = 1, shift = 0, tshift = 0;
+            std::vector<double> v, nbv;
+            bool ok = true;
+            if (cmd == "LAP")
+                ok = bool(ss >> N >> k) && get_doubles(ss, 1, v) && (width = v[0], true) && N > 0 && N <= 2048 &&
+                     k > 0 && k <= N && get_doubles(ss, (long)N * N, v);
+            else if (cmd == "KLLEW")
+            {
+                std::vector<double> pr;
+                ok = bool(ss >> N >> D >> k) && get_doubles(ss, 2, pr) && N > 0 && N <= 2048 && D > 0 && D <= 512 &&
+                     k > 0 && k <= N && get_doubles(ss, (long)N * D, v);
+                if (ok)
+                {
+                    shift = pr[0];
+                    tshift = pr[1];
+                }
+            }
+            else
+            {
+                std::vector<double> pr;
+                ok = bool(ss >> N >> D >> k >> d) && get_doubles(ss, 1, pr) && N > 0 && N <= 2048 && D > 0 &&
+                     D <= 512 && k > 0 && k <= N && d > 0 && d < k && get_doubles(ss, (long)N * D, v);
+                if (ok)
+                    shift = pr[0];
+            }
+            if (ok)
+                ok = get_doubles(ss, (long)N * k, nbv);
+            if (ok)
+                for (double x : nbv)
+                    if (!(x >= 0 && x < N) || x != std::floor(x))
+                        ok = false;
+            if (!ok)
+            {
+                printf("C %ld\nR %ld BADCASE\n", id, id);
+                continue;
+            }
+            printf("C %ld\n", id);
+            fflush(stdout);
+            alarm(30);
+            tapkee_internal::Neighbors nbrs(N);
+            for (int i = 0; i < N; i++)
+                for (int a = 0; a < k; a++)
+                    nbrs[i].push_back((IndexType)nbv[(size_t)i * k + a]);
+            std::vector<IndexType> idx(N);
+            for (int i = 0; i < N; i++)
+                idx[i] = i;
+            std::ostringstream os;
+            os << "R " << id << " OK ";
+            if (cmd == "LAP")
+            {
+                DenseMatrix T(N, N);
+                for (int i = 0; i < N; i++)
+                    for (int j = 0; j < N; j++)
+                        T(i, j) = v[(size_t)i * N + j];
+                table_distance_callback dcb(T);
+                tapkee_internal::Laplacian lap =
+                    tapkee_internal::compute_laplacian(idx.begin(), idx.end(), nbrs, dcb, width);
+                DenseMatrix L = DenseMatrix(lap.first);
+                DenseMatrix Dg = lap.second.diagonal();
+                put_matrix(os, "L", L);
+                os << " | ";
+                put_matrix(os, "D", Dg);
+            }
+            else
+            {
+                DenseMatrix X(D, N);
+                for (int i = 0; i < N; i++)
+                    for (int j = 0; j < D; j++)
+                        X(j, i) = v[(size_t)i * D + j];
+                eigen_kernel_callback kcb(X);
+                SparseWeightMatrix W = (cmd == "KLLEW")
+                                           ? tapkee_internal::linear_weight_matrix(idx.begin(), idx.end(), nbrs, kcb,
+                                                                                   shift, tshift)
+                                           : tapkee_internal::tangent_weight_matrix(idx.begin(), idx.end(), nbrs, kcb,
+                                                                                    d, shift);
+                DenseMatrix M = DenseMatrix(W);
+                put_matrix(os, "M", M);
+            }
+            alarm(0);
             puts(os.str().c_str());
         }
         else
